@@ -1,6 +1,7 @@
 package verifharness
 
 import (
+	"context"
 	"encoding/json"
 	"fmt"
 	"net"
@@ -24,7 +25,7 @@ type LbOp struct {
 	XFF    string `json:"xff,omitempty"`
 	XRI    string `json:"xri,omitempty"`
 	Remote string `json:"remote,omitempty"`
-	Code   int    `json:"code,omitempty"` // end: status; 0 = transport error (502); -1 = abort mid-body
+	Code   int    `json:"code,omitempty"` // end: status; 0 = transport error (502); -1 = abort mid-body; -3 = the client goes away while the backend is working
 	D      int64  `json:"d,omitempty"`
 	Name   int    `json:"name,omitempty"`
 	W      int    `json:"w,omitempty"`
@@ -65,6 +66,7 @@ type lbRunner struct {
 	nextID   int
 	pending  map[int]*rtCall
 	done     map[int]chan serveResult
+	cancel   map[int]context.CancelFunc
 	order    []int
 	tab      strTab
 	ops, obs []string
@@ -103,6 +105,12 @@ func (r *lbRunner) begin(op LbOp) {
 		req.Header.Set("X-Real-IP", op.XRI)
 	}
 	req.RemoteAddr = op.Remote
+	ctx, cancel := context.WithCancel(context.Background())
+	req = req.WithContext(ctx)
+	if r.cancel == nil {
+		r.cancel = map[int]context.CancelFunc{}
+	}
+	r.cancel[op.Rid] = cancel
 	host := op.Remote
 	if h, _, err := net.SplitHostPort(op.Remote); err == nil {
 		host = h
@@ -155,6 +163,11 @@ func (r *lbRunner) end(rid, code int) {
 		c.release <- rtOutcome{kind: "abort"}
 	case code == 0:
 		c.release <- rtOutcome{kind: "err"}
+		modelCode = 502
+	case code == -3:
+		// the client's connection is gone: the server cancels the request context; the transport gives up with
+		// context.Canceled and the proxy answers 502 into the void - for the accounting a failed request on that backend
+		r.cancel[rid]()
 		modelCode = 502
 	default:
 		c.release <- rtOutcome{kind: "status", status: code}
@@ -301,7 +314,7 @@ func runLbCase(c *LbCase) (string, map[string]int) {
 			case x < 66 && len(r.order) > 0:
 				code := 200
 				if g.Chance(failBias) {
-					code = []int{500, 503, 502, 0, 0, -1, 404, 500}[g.Intn(8)]
+					code = []int{500, 503, 502, 0, 0, -1, 404, 500, -3}[g.Intn(9)]
 				} else if g.Chance(20) {
 					code = []int{201, 204, 301, 404, 499}[g.Intn(5)]
 				}
